@@ -91,7 +91,7 @@ def _build(rng):
     other = _table(rng, "general")
     esc = family == "general" or rng.random() < 0.3
     strings = [_string(rng, entries, escapes=esc) for _ in range(5)]
-    mode = rng.choice(["api", "api", "program", "program", "program-sibling-only"])
+    mode = rng.choice(["api", "api", "program", "program", "program-sibling-only", "program-expansions"])
     return {"family": family, "entries": entries, "other": other, "strings": strings, "mode": mode}
 
 
@@ -208,6 +208,33 @@ def run_case(case) -> Outcome:
         for k, v in lab.items():
             if got_labels.get(k) != v:
                 out.bad("program:size-in-layout", case, f"label {k} = {got_labels.get(k)} expected {v:#x} (.text must occupy exactly its emitted size)\n{src}")
+        return out
+    if case["mode"] == "program-expansions":
+        # one .text statement expanded several times (macro body, loop body) under different visible tables: every
+        # expansion uses the table of the scope it is expanded in (a macro application is a block at the call site)
+        src = (f"*=0x{org:06x}\n.macro m_say() {{\n.text '{s0}'\n}}\n.macro m_own() {{\n.table 't1.tbl'\n.text '{s3}'\n}}\n.table 't0.tbl'\nm_say()\n{{\n.table 't1.tbl'\nm_say()\n"
+               f".for i_0 := 0, 2 {{\n.text '{s1}'\n}}\n}}\nm_say()\nm_own()\n.for i_1 := 0, 2 {{\n.text '{s2}'\n{{\n.table 't1.tbl'\n.text '{s2}'\n}}\nm_say()\n}}\n.text '{s4}'\nlb_end:\n")
+        E = T.encode
+        seq = [("macro under the root table", E(entries, s0)), ("macro under an overriding table", E(other, s0)), ("loop under an overriding table", E(other, s1) * 2),
+               ("macro under the root table again", E(entries, s0)), ("macro that loads its own table", E(other, s3)),
+               ("loop body with an inner override", (E(entries, s2) + E(other, s2) + E(entries, s0)) * 2), ("root after the expansions", E(entries, s4))]
+        expected = b"".join(c for _, c in seq)
+        res = driver.assemble_mem(src, files=files)
+        out.evals += 1
+        out.labels.append("expansions")
+        if not res.accepted:
+            return out.bad(f"expansions:rejected:{res['exc'] or 'error'}@{res['frame']}", case, f"rejected: {res['status']} {res['exc']} {res.failure_text[:300]}\n{src}")
+        got = b"".join(d for _, d in res["blocks"])
+        if got != expected:
+            pos, culprit = 0, "length"
+            for nm, chunk in seq:
+                if got[pos:pos + len(chunk)] != chunk:
+                    culprit = nm
+                    break
+                pos += len(chunk)
+            return out.bad(f"expansions:bytes:{culprit}", case, f"emitted {got.hex()} expected {expected.hex()}\n{src}\nt0:\n{files['t0.tbl']}\nt1:\n{files['t1.tbl']}")
+        if dict(res["labels"]).get("lb_end") != org + len(expected):
+            out.bad("expansions:size-in-layout", case, f"label lb_end = {dict(res['labels']).get('lb_end')} expected {org + len(expected):#x}\n{src}")
         return out
     # sibling-only: a table loaded in one block must not be visible in a sibling block
     src = f"*=0x{org:06x}\n{{\n.table 't1.tbl'\n.text '{s0}'\n}}\n{{\n.text '{s1}'\n}}\n"
